@@ -490,6 +490,18 @@ class Engine(Interp):
                     ctx.memo[mkey] = (None, None, ctx.obl[n_obl0:], [])
                 return []
             rst = out
+            # join values created inside this activation carry names derived from the frame id; a second
+            # activation from the same call site would reuse them and alias values that are still alive
+            # (results collected in a vector, heap cells written through &mut): give them fresh names now
+            m = {}
+            jf = getattr(ctx, "joined_fids", ())
+            for v in (rst.itv if fid in jf else ()):
+                if type(v) is tuple and v and v[0] == "j" and type(v[1]) is tuple and ((v[1][0] == "ret" and v[1][1] == fid) or v[1][0] == fid):
+                    m[v] = ctx.fresh()
+            if m:
+                rename_bulk(rst, m)
+            if fid in jf:
+                jf.discard(fid)
             ret = rst.store.get((fid, 0), UNIT)
             for k in [k for k in rst.store if k[0] == fid]:
                 del rst.store[k]
